@@ -254,7 +254,7 @@ def kindStep (P : Prims) (dd : DDesc) (e : Elem) (s : St) : CM St :=
     | none => P.numeric dd nbits scale (e.ref * s.regs.refFactor) s
     | some nr => P.numeric dd nbits scale (nr * s.regs.refFactor) s
 
-theorem elementDescriptor_eq (P : Prims) (dd : DDesc) (e : Elem) (s : St) :
+theorem elementDescriptor_steps (P : Prims) (dd : DDesc) (e : Elem) (s : St) :
     elementDescriptor P dd e s =
       ((if s.regs.assocStack ≠ [] ∧ xOf e.id ≠ 31 then associatedField P e.id s else pure s) >>= fun s =>
         qaStep (xOf e.id) s >>= fun s => kindStep P dd e s) := rfl
@@ -348,7 +348,7 @@ theorem elem_core (φ : D → Elem) (A : PyData D V → B → StData → Prop) (
     (hid : 0 ≤ d.id) (hX : d.X = (xOf d.id.toNat : Int)) (hnb : 0 ≤ d.nbits)
     (ps : CoderState.Self D V) (b : B) (s : St) (h : AbsSt φ A ps b s) :
     Corr φ A (Coder.process_element_descriptor cb ps b d) (elementDescriptor P dd (elemOf d) s) := by
-  rw [elementDescriptor_eq]
+  rw [elementDescriptor_steps]
   simp only [Coder.process_element_descriptor, exc_bind_assoc]
   refine corrV_bind_final (elem_stmt2 φ A cb P dd d hcb hX _ s ⟨h, rfl, rfl⟩) _ _ ?_
   intro v1 s1 h1
